@@ -29,11 +29,11 @@ KIND = 'authorship::working_log::CheckpointKind'
 STATS = 'authorship::working_log::CheckpointLineStats'
 CFG = {'max_steps': 1500000}
 
-FILES = ['f', 'd/g', 'd', 'dx']
+FILES = ['f', 'd/g', 'd', 'dx', 'd/e/h']
 SPECS = ['f', 'd', 'd/', 'd/g', 'x', '.']
 
 BOUNDS = {
-    'quick': 'K2: INITIAL naming a subset of the files {f, d/g, d, dx} (each with an arbitrary symbolic line attribution), <=2 checkpoints x <=2 entries over the same names, <=2 pathspecs from {f, d, d/, d/g, x, .}; reset_working_log on the same pre-states',
+    'quick': 'K2: INITIAL naming a subset of the files {f, d/g, d, dx, d/e/h} (each with an arbitrary symbolic line attribution), <=2 checkpoints x <=2 entries over the same names, <=2 pathspecs from {f, d, d/, d/g, x, .}; reset_working_log on the same pre-states',
     'thorough': 'all subsets, 3 pathspecs',
 }
 OUTSIDE = 'arbitrary porcelain sequences (histories over git itself); which hook calls which helper for which command line (is_force_checkout etc. are exercised only through the two entry points encoded here); blob files under blobs/ (content snapshots, carry no attribution)'
@@ -45,8 +45,8 @@ ASSUMPTIONS = [
 
 def plan(tier, seed):
     tasks = []
-    subsets = [(), ('f',), ('d/g',), ('f', 'd/g'), ('d', 'dx'), ('f', 'd/g', 'dx')]
-    ckpts = [[], [['f']], [['f', 'd/g']], [['d/g'], ['f', 'dx']]]
+    subsets = [(), ('f',), ('d/g',), ('f', 'd/g'), ('d', 'dx'), ('f', 'd/g', 'dx'), ('d/e/h', 'f')]
+    ckpts = [[], [['f']], [['f', 'd/g']], [['d/g'], ['f', 'dx']], [['d/e/h']]]
     specs = [[s] for s in SPECS] + [['f', 'd'], ['d/', 'x'], ['d/g', 'f']]
     for init in subsets:
         for ck in ckpts:
